@@ -498,7 +498,7 @@ func main() {
 		"around one roll-over for up to N waiters, and random schedules using the yield hooks; distinct = distinct " +
 		"(settings, action list, observables); non-trivial = a roll-over pass ran while somebody waited and at least " +
 		"one Enqueue returned false; plugin: the real StrategyBasedQueuePlugin.OnRequest/OnResponse over 1-3 remedies " +
-		"(quota 1-3, windows 1-3 s, TTL 1-4 s, queue size 1-3, three prioritization tables incl. a group for the missing " +
+		"(quota 1-3, windows 1-3 s, TTL 1-4 s in eighths of a second, queue size 1-3, three prioritization tables incl. a group for the missing " +
 		"header, equal strategies under different names, one name with a changed strategy, one key with changed per-call " +
 		"parameters, a remedy without configuration): online histories with bursts, clock advances to boundary-1/boundary/" +
 		"boundary+1 and TTL deadline +-1, and forced interleavings in which the first request of a remedy is held inside " +
